@@ -64,6 +64,7 @@ var constOverrides = map[string]map[string]constOverride{
 	},
 	"pkg/backend/scanner": {
 		"rangeStreamBatch": {"300", true},
+		"scanInitDelay":    {"1000", false}, // 1µs: the back-off of a failed scan sleeps in real time
 	},
 }
 
